@@ -13,7 +13,8 @@ from pgv.core import Fail
 ID = "C13"
 LEVEL = "exploration"
 RULE = ("A payload over < > & \" ' CR LF and tag/attribute/block-header fragments is placed in one echo position (request "
-        "selector of an error page, /URL: redirect request, file name, directory name, HTML <title>, mail Subject, sidecar "
+        "selector of an error page, /URL: redirect request, file name, directory name, top-level names and link selectors in the "
+        "reserved 'URL:' namespace, HTML <title>, mail Subject, sidecar "
         ".abstract lines, link-file Name=/Abstract=/Path=/Host=, gophermap description/selector/URL: selector/host, lines "
         "of a text file converted to WML) and the page is fetched through HTTP, HTTPS, WAP (both detections) or Gopher+ "
         "($ and !). Oracle: the same page built with an inert alphanumeric placeholder in the same role must tokenise "
@@ -37,7 +38,8 @@ payload_st = st.lists(st.sampled_from(FRAGS), min_size=1, max_size=4).map("".joi
 
 POSITIONS = ["noname-path", "noname-remote-path", "selector-error", "url-redirect", "filename", "dirname", "html-title", "subject", "abstract-sidecar",
              "linkfile-name", "linkfile-abstract", "linkfile-path", "linkfile-urlpath", "linkfile-host", "map-desc", "map-sel",
-             "map-url", "map-host", "wap-text", "search-item-path", "keywords-sidecar"]
+             "map-url", "map-host", "wap-text", "search-item-path", "keywords-sidecar",
+             "url-dirname", "url-filename", "linkfile-url-noscheme", "map-url-noscheme"]
 HTML_FORMS = ["http", "https", "wap", "waphdr"]
 GP_FORMS = ["gdollar", "gbang"]
 GP_POSITIONS = {"filename", "html-title", "subject", "abstract-sidecar", "linkfile-name", "linkfile-abstract", "map-desc",
@@ -64,7 +66,7 @@ def examples(tier):
 
 def _fit(pos, p, fam):
     """adapt the payload to what the position can physically hold; returns None if nothing is left"""
-    if pos in ("filename", "dirname"):
+    if pos in ("filename", "dirname", "url-dirname", "url-filename"):
         p = p.replace("/", "").replace("\0", "")
         if fam in ("gdollar", "gbang"):
             p = re.sub(r"[\t\r\n]", "", p)
@@ -76,7 +78,8 @@ def _fit(pos, p, fam):
             return None
         return p
     if pos in ("linkfile-name", "linkfile-abstract", "linkfile-path", "linkfile-urlpath", "linkfile-host", "map-desc", "map-sel",
-               "map-url", "map-host", "subject", "search-item-path", "noname-path", "noname-remote-path"):
+               "map-url", "map-host", "subject", "search-item-path", "noname-path", "noname-remote-path",
+               "linkfile-url-noscheme", "map-url-noscheme"):
         p = re.sub(r"[\t\r\n]", " ", p).strip()
         if pos in ("linkfile-path", "map-sel", "search-item-path", "noname-path", "noname-remote-path"):
             p = p.replace("..", "").replace("//", "/").replace("./", "").strip("/").strip()
@@ -108,6 +111,17 @@ def _build(pos, v, n, fill=0):
     elif pos == "dirname":
         spec = [[v + "/zz.txt", "f", "plain\n"]]
         sel = "/" + v
+    elif pos == "url-dirname":
+        # names in the reserved 'URL:' namespace (a name cannot contain '://', so these are never real URL: links)
+        spec = [["URL:" + v + "/zz.txt", "f", "plain\n"]]
+        sel = "/URL:" + v
+    elif pos == "url-filename":
+        spec = [["URL:" + v, "f", "content\n"], ["zz.txt", "f", "plain\n"]] + [["A%02d.txt" % i, "f", "filler\n"] for i in range(fill)]
+        sel = "/"
+    elif pos == "linkfile-url-noscheme":
+        spec.append(["d/.links", "f", "Name=Mail\nType=h\nPath=URL:%s\nHost=+\nPort=+\n" % v])
+    elif pos == "map-url-noscheme":
+        spec.append(["d/gophermap", "f", fillmap + "hMail\tURL:%s\n" % v])
     elif pos == "html-title":
         spec.append(["d/page.html", "f", "<html><head><title>%s</title></head><body></body></html>\n" % html.escape(v)])
     elif pos == "subject":
@@ -214,7 +228,7 @@ def check_case(case, ctx):
         q = "\n".join((q if l.strip() else "") for l in p.splitlines())
         if p.endswith(("\n", "\r")):
             q += "\n"
-    fill = case.get("fill", 0) if pos not in ("dirname", "subject", "wap-text", "selector-error", "url-redirect") else 0
+    fill = case.get("fill", 0) if pos not in ("dirname", "url-dirname", "subject", "wap-text", "selector-error", "url-redirect") else 0
     rp = _fetch(pos, p, case["n"], form, fill)
     if rp is None:
         return []
